@@ -247,6 +247,8 @@ type NullProgCase struct {
 	// refused, never evaluated
 	PtrStyle bool   `json:"ptrstyle,omitempty"`
 	NilName  string `json:"nilname,omitempty"`
+	// ValStyle: a present optional is a maybe-tagged field of the payload's own Go type
+	ValStyle bool `json:"valstyle,omitempty"`
 }
 
 func genNullProg(t *rapid.T) *NullProgCase {
@@ -284,6 +286,9 @@ func genNullProg(t *rapid.T) *NullProgCase {
 			c.PtrStyle, c.NilStyle = true, false
 			c.NilName = req[rapid.IntRange(0, len(req)-1).Draw(t, "nilname")]
 		}
+	}
+	if !c.PtrStyle && rapid.IntRange(0, 2).Draw(t, "valstyle") == 0 {
+		c.ValStyle, c.NilStyle = true, false
 	}
 	return c
 }
@@ -391,10 +396,13 @@ func checkNullProg(c *NullProgCase) *Outcome {
 		return skip("env-not-hostable")
 	}
 	var envObj, nilObj interface{}
+	byValue := false
 	switch {
 	case c.PtrStyle:
 		envObj = run.EnvStructPtrMixed(pc.Vals, "")
 		nilObj = run.EnvStructPtrMixed(pc.Vals, c.NilName)
+	case c.ValStyle:
+		envObj, byValue = run.EnvStructMaybeByValue(pc.Vals)
 	case c.NilStyle:
 		envObj = run.EnvStructNil(pc.Vals)
 	default:
@@ -456,6 +464,9 @@ func checkNullProg(c *NullProgCase) *Outcome {
 	if c.PtrStyle {
 		classes = append(classes, "untagged-pointers:then-same-go-type-with-nil")
 	}
+	if byValue {
+		classes = append(classes, "present-optional-as-tagged-value-field")
+	}
 	if pc.Stats["get-maybe"] > 0 {
 		classes = append(classes, "get-with-default")
 	}
@@ -465,7 +476,7 @@ func checkNullProg(c *NullProgCase) *Outcome {
 var c16prog = Register(&Prop[NullProgCase]{ID: "C16", Name: "programs-over-optionals", Gen: genNullProg, Check: checkNullProg})
 
 func TestC16(t *testing.T) {
-	R.Rule = "(a) enumerated: every built-in x every argument position given an optional of the required type (three instantiations of type variables; the parameter's variable optional in one or in all positions), member / subscript access on an optional, optional as index / key, list of optionals where a list of numbers is required, a default of get(optional container, default) whose elements are optional, an optional at the second place where one variable's composite type occurs in the expected type of a list / map / conditional / default - reference checker decides accept / reject, Compile must agree on three back ends, accepted ones are evaluated for present and absent payloads; (b) random well-typed programs over Go host data (structs with tagged nil / non-nil pointers, nil slices and nil maps) that consume optionals through get(optional, default) and move them through polymorphic positions, evaluated on four back ends against the reference; one case in three supplies required bindings as untagged non-nil pointers and then gives the same Callable a value of the same Go type with one of those pointers nil, which must be refused and not evaluated; (c) Go containers (slices, arrays, maps) of structs whose pointer / slice / map fields are nil or not per element: either rejected as inconsistent or converted to a value in which every component has the type its container declares (an absent part only at an optional-typed position); non-trivial = the program mentions an optional-typed name"
+	R.Rule = "(a) enumerated: every built-in x every argument position given an optional of the required type (three instantiations of type variables; the parameter's variable optional in one or in all positions), member / subscript access on an optional, optional as index / key, list of optionals where a list of numbers is required, a default of get(optional container, default) whose elements are optional, an optional at the second place where one variable's composite type occurs in the expected type of a list / map / conditional / default - reference checker decides accept / reject, Compile must agree on three back ends, accepted ones are evaluated for present and absent payloads; (b) random well-typed programs over Go host data (structs with tagged nil / non-nil pointers, present optionals also as maybe-tagged fields of the payload's own Go type holding the payload itself (zero values included), nil slices and nil maps) that consume optionals through get(optional, default) and move them through polymorphic positions, evaluated on four back ends against the reference; one case in three supplies required bindings as untagged non-nil pointers and then gives the same Callable a value of the same Go type with one of those pointers nil, which must be refused and not evaluated; (c) Go containers (slices, arrays, maps) of structs whose pointer / slice / map fields are nil or not per element: either rejected as inconsistent or converted to a value in which every component has the type its container declares (an absent part only at an optional-typed position); non-trivial = the program mentions an optional-typed name"
 	R.Assume = []string{"ref.Check / ref.Eval"}
 	reportKnown(t, "C16")
 	runRegress(t, "C16")
